@@ -15,20 +15,24 @@ def sectorSize : Nat := Gen.fs_sectorSize
 
 structure Region where
   start : Nat
-  stop : Nat       -- exclusive
+  stop : Nat       -- the region's LAST sector (inclusive), as on discs and in the images the server generates
 deriving Repr, DecidableEq
 
 /-- maximal number of table entries: the table lives in the first sector -/
 def maxRegions : Nat := (sectorSize - 8) / 8
 
-/-- borders must increase monotonically: every region non-empty, none starting before the previous one ends -/
-def bordersOk : List Region → Nat → Bool
+/-- borders must increase monotonically: no region ends before it starts, each starts after the last
+    sector of the previous one (`prev` = none for the first region) -/
+def bordersOk : List Region → Option Nat → Bool
   | [], _ => true
-  | r :: rest, prevEnd => if r.stop ≤ r.start then false else if r.start < prevEnd then false else bordersOk rest r.stop
+  | r :: rest, prev =>
+    if r.stop < r.start then false
+    else if (match prev with | some e => decide (r.start ≤ e) | none => false) then false
+    else bordersOk rest (some r.stop)
 
 /-- the sanity checks of NewEncryptedISO on a decoded table -/
 def validRegs (regs : List Region) : Bool :=
-  2 ≤ regs.length && regs.length ≤ maxRegions && (regs.head?.map (·.start)) == some 0 && bordersOk regs 0
+  2 ≤ regs.length && regs.length ≤ maxRegions && (regs.head?.map (·.start)) == some 0 && bordersOk regs none
 
 /-- the big-endian table at the start of the image: count, 4 pad bytes, (start, end) pairs.
     none = the file is too short for the table it announces, or announces more than fits a sector -/
@@ -50,7 +54,7 @@ def parseTable (rd : Nat → Nat → Bytes) : Option (List Region) :=
 
 /-- the encrypted gaps between consecutive plain regions -/
 def gaps : List Region → List Region
-  | a :: b :: rest => ⟨a.stop, b.start⟩ :: gaps (b :: rest)
+  | a :: b :: rest => ⟨a.stop + 1, b.start⟩ :: gaps (b :: rest)
   | _ => []
 
 def inGap (gs : List Region) (sector : Nat) : Bool := gs.any (fun g => g.start ≤ sector && sector < g.stop)
